@@ -6,7 +6,7 @@ from . import models as M, routes as R
 from .refmodel import expr as X
 from .refmodel.jets import Jet
 
-LABELS_INI = [('A', 'B'), ('Si', 'O'), ('O', 'O'), ('U4+', 'Mg_c'), ('B', 'A'), ('C', 'D')]
+LABELS_INI = [('A', 'B'), ('Si', 'O'), ('O', 'O'), ('U4+', 'Mg_c'), ('B', 'A'), ('C', 'D'), ('O_core', 'O_shel'), ('Uranium4', 'O2minus_')]
 LABELS_API = LABELS_INI + [('core-O', 'O2-')]
 ROUTES = ['cls', 'wp', 'cfg', 'potable']
 
@@ -54,14 +54,14 @@ def regular_at_zero(name):
         return False
 
 
-def pair_cases(tier, routes=ROUTES, mult4=False, api_labels=True, sweep_pot='polynomial', from_zero=False):
+def pair_cases(tier, routes=ROUTES, mult4=False, api_labels=True, sweep_pot='polynomial', from_zero=False, objects=True, si=False):
     """ordered (simplest first) list of case dicts: route, cutoff, nr, pots=[[a, b, libname], ...]"""
     lib = M.lib()
     names = [n for n, _d, _t in lib]
-    pyn = sorted(M.py_callables())
+    pyn = sorted(M.py_callables()) + (['obj_sub', 'obj_duck'] if objects else [])
     if from_zero:
         names = [n for n in names if regular_at_zero(n)]
-        pyn = []
+        pyn = ['obj_sub0', 'obj_duck0'] if objects else []
     out = []
     G = model_grids(tier, mult4)
     # (1) every library potential alone x grid x route, rotating labels
@@ -117,6 +117,12 @@ def pair_cases(tier, routes=ROUTES, mult4=False, api_labels=True, sweep_pot='pol
     pairs15 = [(sp5[i], sp5[j]) for i in range(5) for j in range(i, 5)]
     for route in (routes if tier != 'quick' else routes[:1] + routes[-1:]):
         out.append(dict(route=route, cutoff=10.0, nr=12000, pots=[[a_, b_, big_names[k % len(big_names)]] for k, (a_, b_) in enumerate(pairs15)], big=True))
+    # (4d) SI-unit potentials whose numerical derivative needs the caller's step h (only where the format prints exponents)
+    if si:
+        for (cutoff, nr) in ((1e-9, 8), (1e-9, 12), (8e-10, 100), (1.2e-9, 16)):
+            for route in [r_ for r_ in routes if r_ in ('cls', 'wp')]:
+                out.append(dict(route=route, cutoff=cutoff, nr=nr, pots=[['A', 'B', 'obj_si']]))
+                out.append(dict(route=route, cutoff=cutoff, nr=nr, pots=[['B', 'B', 'obj_si'], ['A', 'B', 'obj_si']]))
     # (5) histories: the same table after a tabulation that failed at its k-th evaluation in this process
     for k in (1, 2, 3, 4, 5, 6, 7, 9):
         for route in routes:
@@ -150,8 +156,18 @@ def pre_fail(case, target):
     return False
 
 
+_objs = None
+
+
+def OBJ():
+    global _objs
+    if _objs is None:
+        _objs = M.py_objects()
+    return _objs
+
+
 def api_able(n):
-    if n in M.py_callables():
+    if n in M.py_callables() or n.startswith('obj_'):
         return True
     _d, t = M.lib_by_name(n)
     return 'api' in t
@@ -179,7 +195,7 @@ def callable_for(name):
 
 def build_objs(pots):
     import atsim.potentials as ap
-    return [ap.Potential(a, b, callable_for(n)[0]) for a, b, n in pots]
+    return [OBJ()[n]['make'](a, b) if n.startswith('obj_') else ap.Potential(a, b, callable_for(n)[0]) for a, b, n in pots]
 
 
 def semantics(name, route):
@@ -193,6 +209,8 @@ def ref(name, route):
     pyc = M.py_callables()
     if name in pyc:
         return pyc[name][1], pyc[name][2], None
+    if name.startswith('obj_'):
+        return OBJ()[name]['ref'], OBJ()[name]['numeric'], None
     d, t = M.lib_by_name(name)
     e = M.env()
     d2 = R.apiize(d) if semantics(name, route) == 'api' else d
@@ -216,6 +234,9 @@ def force_allowance(name, route, rr, base):
     fn, numeric, d2 = ref(name, route)
     if not numeric:
         return base
+    if name.startswith('obj_'):
+        h = OBJ()[name]['h']
+        return base + M.num_allow(abs(fn(rr).v), M.third_deriv(fn, rr, delta=1e-4 * rr), h=h)
     if d2 is not None:
         Ms = max(M.err_scale(d2, rr + s, M.env()) for s in (-M.H / 2, M.H / 2))
     else:
@@ -247,7 +268,7 @@ def produce(case, target, omit_target=False, ini_target=None):
     ini = ini_for(case, None if omit_target else (ini_target or target))
     if route == 'cfg':
         return R.write_tabulation(R.config_read(ini))
-    res = R.potable(ini, binary=binary)
+    res = R.potable(ini, binary=binary, prefill=True)     # OUTPUT_FILE exists already and is longer than the new table
     if res.exc is not None:
         raise res.exc
     if res.status != 0:
